@@ -196,7 +196,7 @@ func runS2Job(j *check.Job) *check.Result {
 			fmt.Println("  ", line)
 		}
 		for _, v := range out.Violations {
-			res.Violations = append(res.Violations, check.Violation{Scenario: j.Name, Oracle: v.Oracle, Detail: v.Detail, Info: v.Info})
+			res.Violations = append(res.Violations, check.Violation{Scenario: j.Name, Oracle: v.Oracle, Detail: v.Detail, Info: v.Info, Tags: oracleTags(v.Oracle)})
 		}
 		res.Executions = 1
 		res.Exhaustive = true
@@ -235,10 +235,35 @@ func runS2Job(j *check.Job) *check.Result {
 		if sample == nil {
 			sample = f.Prefix
 		}
-		res.Violations = append(res.Violations, check.Violation{Scenario: j.Name, Oracle: f.Oracle, Detail: f.Detail, Info: f.Info, Replay: &check.Replay{Choices: trimZeros(f.Prefix)}})
+		res.Violations = append(res.Violations, check.Violation{Scenario: j.Name, Oracle: f.Oracle, Detail: f.Detail, Info: f.Info, Replay: &check.Replay{Choices: trimZeros(f.Prefix)}, Tags: oracleTags(f.Oracle)})
 	}
 	res.Samples = []any{map[string]any{"block": p.Block, "bound": p.Bound, "default_schedule_choice_points": len(o1.Points), "default_outcome": o1.Key}}
 	return res
+}
+
+// oracleTags maps an S2 oracle to the properties it is evidence against.
+func oracleTags(oracle string) []string {
+	switch oracle {
+	case "view", "probe":
+		return []string{"C01"}
+	case "relay":
+		return []string{"C02"}
+	case "isolation":
+		return []string{"C03"}
+	case "deadlock":
+		return []string{"C09", "C08"}
+	case "teardown":
+		return []string{"C07", "C08", "C09"}
+	case "answer-count", "answer":
+		return []string{"C09", "C07", "C10"}
+	case "gauge", "orphaned-join", "empty-session-discoverable", "duplicate-session-id", "frame-worker":
+		return []string{"C07"}
+	case "id", "id-source":
+		return []string{"C10", "C05", "C12"}
+	case "race":
+		return []string{"C09"}
+	}
+	return nil
 }
 
 func trimZeros(c []int) []int {
